@@ -103,7 +103,7 @@ def _work(payload):
                             fails.append((m, cj))
                     hist.add((n, conn, gens, fmt, trace))
                     if ob is not None:
-                        obs.append(ob)
+                        obs.append(tuple(ob) + (M.gens_str(gens, n), fmt if fmt != "circuit" else "matrices"))
     return counters, fails, obs
 
 
